@@ -12,6 +12,12 @@ history.json: {"ns": <root namespace dir>, "steps": [step, ...]}
   {"op": "pass", "id", "omit": bool, "embed": bool, "which": "both"|"types"|"support", "snapshot": dir}
         support_generator.generate_all / generator.generate_all on the kept generator objects, then the output
         directory of the generators is moved to `snapshot` (so a later pass starts from an empty directory)
+  {"op": "new_dict", "name", "value": {..}}
+        a caller-owned dict object kept for the rest of the process (a project's shared option dict)
+  {"op": "build_generate", "lang", "files": [yaml paths], "overrides": [{"ref": name} | {"value": {..}}, ...], "omit", "out"}
+        LanguageContextBuilder().set_target_language(lang).add_config_files(*files), then one
+        set_target_language_configuration_override("options", d) per entry -- `ref` passes the kept dict OBJECT itself --,
+        create(), namespace, default generators, one pass of each
 Prints one JSON list: per step {"ok": bool, "error": "<Type>: <message>"}.
 """
 import json
@@ -29,6 +35,7 @@ def main():
     from nunavut.lang import LanguageContextBuilder
 
     kept = {}
+    dicts = {}
     out = []
     for st in h["steps"]:
         try:
@@ -37,6 +44,19 @@ def main():
                                omit_serialization_support=st["omit"],
                                language_options=(None if st["options"] is None else dict(st["options"])),
                                include_experimental_languages=True, embed_auditing_info=bool(st.get("embed")))
+            elif st["op"] == "new_dict":
+                dicts[st["name"]] = dict(st["value"])
+            elif st["op"] == "build_generate":
+                b = LanguageContextBuilder(include_experimental_languages=True).set_target_language(st["lang"])
+                b.add_config_files(*[pathlib.Path(f) for f in st["files"]])
+                for ov in st["overrides"]:
+                    b.set_target_language_configuration_override("options", dicts[ov["ref"]] if "ref" in ov else dict(ov["value"]))
+                lctx = b.create()
+                types = pydsdl.read_namespace(ns, [])
+                root = build_namespace_tree(types, ns, st["out"], lctx)
+                gen, sup = create_default_generators(root)
+                sup.generate_all(False, True, st["omit"], False)
+                gen.generate_all(False, True, st["omit"], False)
             elif st["op"] == "new_generators":
                 lctx = (LanguageContextBuilder(include_experimental_languages=True)
                         .set_target_language(st["lang"])
